@@ -11,8 +11,8 @@ from .. import shapes as S
 from ..core import fmt_list, frac, err_kind, floats
 
 ID = "C16"
-MODULES = ["TWV.Properties.C16", "TWV.Tie.WeaverStep"]
-TRANSLATORS = ["t9_weaver"]
+MODULES = ["TWV.Properties.C16", "TWV.Tie.WeaverStep", "TWV.Tie.SmoothGlue", "TWV.Tie.WeaverIO"]
+TRANSLATORS = ["t9_weaver", "t15_smoothglue", "t14_weaverio"]
 RULE = ("random series of 5..40 points (uniform or not, smooth or noisy, affine), s in {None, 0} u [1e-4, 1e2]; the harness calls "
         "SciPy (splrep + BSpline) itself with the triple (x, y, s_eff) the model says is forwarded - s_eff = len(y)*var(y) "
         "computed by the model for s=None - and compares with Weaver.smooth(s).get(), Weaver.to_function(s)(x) and "
